@@ -60,7 +60,7 @@ PROPS["C09"] = {
     "kani": "c09",
     "mir": "c09",
     "level": "model_checking",
-    "explanation": "Bounded model checking (Kani/CBMC) of the aggregate kernels: partial states of any split of a multiset merge to the state of the whole (AggState::merge for COUNT / TOTAL / AVG / MIN / MAX), the aggregators' update / merge / finalize equal the mathematical metric, the memory-tier update_from_event feeds exactly the stored values, snapshot_aggregator preserves the mergeable state. B-3: the coordinator's finalisation of a merged MIN / MAX state reports the numeric extreme whenever one exists (follows a helper of the same impl if the arm delegates to one). B-4: the row filter built from a plan always carries the scope conditions (event type, FOR, SINCE), also for aggregation plans (known finding F-C09-b, replayed end to end on both tiers).",
+    "explanation": "Bounded model checking (Kani/CBMC) of the aggregate kernels: partial states of any split of a multiset merge to the state of the whole (AggState::merge for COUNT / TOTAL / AVG / MIN / MAX), the aggregators' update / merge / finalize equal the mathematical metric, the memory-tier update_from_event feeds exactly the stored values, snapshot_aggregator preserves the mergeable state. B-3: the coordinator's finalisation of a merged MIN / MAX state reports the numeric extreme whenever one exists (follows a helper of the same impl if the arm delegates to one). B-4: the row filter built from a plan always carries the scope conditions (event type, FOR, SINCE), also for aggregation plans (known finding F-C09-b, replayed end to end on both tiers). B-5: GroupKey::compute_prehash_from_columns hashes only payloads of Some(..) answers of the typed getters (on paths where the getter answered Some) and a NULL cell as the None marker, so the columnar grouped path never merges the NULL group with a value's group.",
     "outside": [
         "COUNT UNIQUE (HashSet), group keys and AggPartial::merge (HashMap), the segment-tier update(row, columns) and SIMD update_column paths (HashMap<String, ColumnValues>)",
         "calendar-aware PER bucketing (chrono), equality with the selection path over stored data, FOR / SINCE handling in aggregate mode (build_from_plan needs a QueryPlan)",
@@ -73,7 +73,7 @@ PROPS["C10"] = {
     "kani": "c10",
     "mir": "c10",
     "level": "model_checking",
-    "explanation": "Bounded model checking (Kani/CBMC) of the comparison every sorter and k-way merger delegates to (ScalarValue::compare) on each numeric / time / bool sort-key type: equals the typed order, antisymmetric and transitive over three arbitrary values; plus the heap ordering (asc / desc, shard tie-break) of the ordered merger through a cfg(kani) hook. Engine B B-3: ghost counters over MergerState::run show the n-th emitted row is the (offset+n)-th popped row and nothing is emitted beyond the limit (<= 3 loop iterations). B-4: MemTableSource's local limit (None for ordered queries, else LIMIT + OFFSET before LIMIT) is the only thing its sorted rows are truncated by.",
+    "explanation": "Bounded model checking (Kani/CBMC) of the comparison every sorter and k-way merger delegates to (ScalarValue::compare) on each numeric / time / bool sort-key type: equals the typed order, antisymmetric and transitive over three arbitrary values; plus the heap ordering (asc / desc, shard tie-break) of the ordered merger through a cfg(kani) hook. Engine B B-3: ghost counters over MergerState::run show the n-th emitted row is the (offset+n)-th popped row and nothing is emitted beyond the limit (<= 3 loop iterations). B-4: MemTableSource's local limit (None for ordered queries, else LIMIT + OFFSET before LIMIT) is the only thing its sorted rows are truncated by. B-5: the shard-level OrderedStreamMerger is started with offset 0 and the shard budget effective_limit, which StreamingContext::new computes as LIMIT + OFFSET.",
     "outside": [
         "the ordered mergers themselves (async, over channels) and top-k zone pre-selection (RLTE, I/O); the window kernel try_accept_row and the OFFSET-without-LIMIT gate are decided by Engine B",
         "string sort keys in general (str::parse of symbolic text does not finish); only the concrete witness of F-C10-a",
@@ -158,7 +158,7 @@ PROPS["C11"] = {
 PROPS["C13"] = {
     "mir": "c13",
     "level": "other",
-    "explanation": "Symbolic checking over the real MIR (z3): (1) path summaries of the loop-free PermissionCache::can_read / can_write against the statement's rule (admin, explicit grant, role unless overridden, REVOKE denies), both directions; (2) in every handler that checks a permission (STORE, QUERY, DEFINE, permission and user management) the data / management effect is unreachable unless auth is off, or a user id is present and it is the bypass id or the permission call returned true; (3) data flow of dispatch_command: which handlers receive the identity at all. B-4k: revoke_key persists and caches an inactive record, the cache only after the store write succeeded. B-5: REVOKE stores the reduced permission set of every named event type before moving on or answering OK.",
+    "explanation": "Symbolic checking over the real MIR (z3): (1) path summaries of the loop-free PermissionCache::can_read / can_write against the statement's rule (admin, explicit grant, role unless overridden, REVOKE denies), both directions; (2) in every handler that checks a permission (STORE, QUERY, DEFINE, permission and user management) the data / management effect is unreachable unless auth is off, or a user id is present and it is the bypass id or the permission call returned true; (3) data flow of dispatch_command: which handlers receive the identity at all. B-4k: revoke_key persists and caches an inactive record, the cache only after the store write succeeded. B-5: REVOKE stores the reduced permission set of every named event type before moving on or answering OK. B-6: in a GRANT / REVOKE over several event types the set stored for one type is independent of the permissions held on the other types (decided by renaming the other iterations' symbols and asking for a differing result).",
     "trusted_base": MIR_TRUSTED + ["the promoted constant compared with the user id in the handlers is BYPASS_USER_ID (promoted bodies are not decoded)"],
     "outside": [
         "HMAC verification, session expiry, rate limiting, the per-connection gates of the four front ends, BATCH",
